@@ -8,6 +8,7 @@
 #include "common.h"
 #include <pthread.h>
 #include <sys/mman.h>
+#include <sched.h>
 
 #define MAXOBJ 260000
 #define CANARY 0xC0FFEE1234ABCDEFULL
@@ -246,6 +247,7 @@ static void dump_targets(var c, int kind) {
 }
 
 static volatile var* stkroots;      /* lives in the worker's frame */
+static volatile int worker_done = 0; static long joinlate = -1;
 
 static void do_op(char** w, int n) {
   const char* op = w[0];
@@ -395,6 +397,7 @@ static var worker(var args) {
   for (size_t li = 0; li < nlines; li++) {
     int n = split(lines[li], w, MAXW);
     if (n is 0) { continue; }
+    if (strcmp(w[0], "joinlate") is 0) { fputc('\n', out); continue; }     /* handled by the main thread */
     var volatile exc = NULL;
     if (strcmp(w[0], "collect") is 0) {
       scrub();
@@ -409,6 +412,7 @@ static var worker(var args) {
   }
   for (int i = 0; i < 16; i++) { roots[i] = NULL; }
   stkroots = NULL;
+  worker_done = 1;
   return NULL;
 }
 
@@ -467,7 +471,15 @@ int main(int argc, char** argv) {
     memset(bset, 0, sizeof bset); outstanding = 0;
     out = open_memstream(&outbuf, &outlen);
     var thr = new_raw(Thread, fn);
+    worker_done = 0; joinlate = -1;
+    if (nlines > 0 and strncmp(lines[0], "joinlate ", 9) is 0) { joinlate = atol(lines[0] + 9); }
     call(thr);
+    /* "joinlate n": join only after the thread's function has returned (plus n spins): join must still wait
+    ** for the thread's exit, i.e. for the teardown of its collector.  Only a stimulus; the oracle is the ledger. */
+    if (joinlate >= 0) {
+      while (not worker_done) { sched_yield(); }
+      for (volatile long sp = 0; sp < joinlate; sp++) { }
+    }
     join(thr);
     tracking = 1;
     del_raw(thr);
